@@ -3,6 +3,12 @@ import inspect
 from typing import Any, Callable, Dict, List, Optional, Sequence, Tuple
 
 
+def TOTAL(*a):
+    """Region predicate of a known finding that covers a whole obligation (the obligation is skipped while the
+    finding is listed as known; its witness is still replayed on every run)."""
+    return True
+
+
 class Ob:
     """One proof obligation.
 
